@@ -11,13 +11,17 @@ def monitorLine (l : Line) : Option String :=
   let t := parseToken l
   let withAT := opt l "at"
   if str l "obs" == "panic" then some "panic" else
+  -- (relying-party mode) an option returned an error: no relying party came about, no token was verified
+  if str l "o.err" == "construct" then none else
   let obs : Option Claims := if str l "obs" == "ok" then some (parseClaims l "o.") else none
   let mon0 := C01.monitor v t withAT (int l "now0") obs
   let mon1 := C01.monitor v t withAT (int l "now1") obs
   if mon0.isSome && mon1.isSome then mon0 else none
 
 def obsString (l : Line) : String :=
-  if str l "obs" == "ok" then "ok" else if str l "obs" == "panic" then "panic" else "err:" ++ str l "o.err"
+  if str l "obs" == "ok" then "ok" else if str l "obs" == "panic" then "panic"
+  else if str l "obs" == "noclaims" then "noclaims"   -- tokens came back without ID Token claims (OAuth-only relying party)
+  else "err:" ++ str l "o.err"
 
 def stepMon (l : Line) : String :=
   s!"case={str l "case"} model=- observed={obsString l} monitor={showMon (monitorLine l)} agree=1"
